@@ -915,6 +915,166 @@ theorem sortToks_time_sorted (po : Int → Bool) {es : List C03.Ev} (wf : C03.WF
 example : checkTopo [⟨⟨1, true⟩, ⟨1, false⟩, 5, .op⟩, ⟨⟨1, false⟩, ⟨2, true⟩, 0, .dep⟩]
     (fun n => if n.ev == 1 then (if n.isStart then 0 else 1) else 2) = true := by decide
 
+/-! ### edge types at the level of the whole kernel loop: what the `last` table stands for -/
+
+/-- `a` is the device activity processed most recently on stream `s`, in the list `done` of the rows
+processed so far (most recent first). -/
+def LastOnStream (done : List Row) (s : Int) (a : Row) : Prop :=
+  ∃ l1 l2, done = l1 ++ a :: l2 ∧ isK a = true ∧ a.stream = s ∧ ∀ x ∈ l1, isK x = true → x.stream ≠ s
+
+/-- The kernel loop's table `last` holds, per stream, the end node of the activity processed most
+recently on that stream — and one entry per stream. -/
+structure LastInv (done : List Row) (st : KState) : Prop where
+  nodup : (st.last.map (·.1)).Nodup
+  exact : ∀ s n, lastOn st.last s = some n → ∃ a, LastOnStream done s a ∧ n = ⟨a.idx, false⟩
+
+theorem kernelStep_last (rows clipped : List Row) (ws : Waits) (q : Int → Option Int) (zl : Bool)
+    (st : KState) (r : Row) :
+    (kernelStep rows clipped ws q zl st r).1.last =
+      if isK r then setLast st.last r.stream ⟨r.idx, false⟩ else st.last := by
+  unfold kernelStep isK
+  simp only []
+  split
+  · rename_i h
+    have : (r.cat != "cuda_sync") = false := by simp [bne, h]
+    rw [this]
+    simp only [Bool.false_eq_true, if_false]
+    split
+    · exact (eventStep_nodes rows clipped ws st r).1
+    · split <;> rfl
+  · rename_i h
+    have : (r.cat != "cuda_sync") = true := by
+      have : (r.cat == "cuda_sync") = false := by simpa using h
+      simp [bne, this]
+    rw [this]
+    simp
+
+theorem kernelStep_lastInv (rows clipped : List Row) (ws : Waits) (q : Int → Option Int) (zl : Bool)
+    (done : List Row) (st : KState) (r : Row) (inv : LastInv done st) :
+    LastInv (r :: done) (kernelStep rows clipped ws q zl st r).1 := by
+  have hl := kernelStep_last rows clipped ws q zl st r
+  cases hk : isK r with
+  | false =>
+    rw [hk] at hl
+    simp only [Bool.false_eq_true, if_false] at hl
+    refine ⟨by rw [hl]; exact inv.nodup, ?_⟩
+    intro s n h
+    rw [hl] at h
+    obtain ⟨a, ⟨l1, l2, hd, ha, has, hno⟩, rfl⟩ := inv.exact s n h
+    refine ⟨a, ⟨r :: l1, l2, by rw [hd]; rfl, ha, has, ?_⟩, rfl⟩
+    intro x hx hxk
+    rcases List.mem_cons.mp hx with rfl | hx
+    · rw [hk] at hxk; cases hxk
+    · exact hno x hx hxk
+  | true =>
+    rw [hk] at hl
+    simp only [if_true] at hl
+    refine ⟨by rw [hl]; exact setLast_nodup _ _ _ inv.nodup, ?_⟩
+    intro s n h
+    rw [hl, lastOn_setLast _ _ _ _ inv.nodup] at h
+    by_cases hs : s = r.stream
+    · rw [if_pos hs] at h
+      simp only [Option.some.injEq] at h
+      subst h
+      exact ⟨r, ⟨[], done, rfl, hk, hs.symm, by intro x hx; cases hx⟩, rfl⟩
+    · rw [if_neg hs] at h
+      obtain ⟨a, ⟨l1, l2, hd, ha, has, hno⟩, rfl⟩ := inv.exact s n h
+      refine ⟨a, ⟨r :: l1, l2, by rw [hd]; rfl, ha, has, ?_⟩, rfl⟩
+      intro x hx hxk
+      rcases List.mem_cons.mp hx with rfl | hx
+      · exact fun e => hs e.symm
+      · exact hno x hx hxk
+
+/-- Every descriptor of the kernel loop is emitted at some row `r` of the processing order, in a
+state whose `last` table describes exactly the rows processed before `r`, and it has one of the six
+typed shapes of `KernelDescOK` there. -/
+theorem kernelRun_types (rows clipped : List Row) (ws : Waits) (q : Int → Option Int) (zl : Bool)
+    (ks : List Row) (done : List Row) (st : KState) (inv : LastInv done st) :
+    ∀ d ∈ kernelRun rows clipped ws q zl st ks,
+      ∃ pre r post st', ks = pre ++ r :: post ∧ LastInv (pre.reverse ++ done) st' ∧ KernelDescOK rows ws st' r d := by
+  induction ks generalizing done st with
+  | nil => intro d hd; cases hd
+  | cons r rs ih =>
+    intro d hd
+    simp only [kernelRun, List.mem_append] at hd
+    rcases hd with hd | hd
+    · exact ⟨[], r, rs, st, rfl, by simpa using inv, C08_kernel_edge_types rows clipped ws q zl st r inv.nodup d hd⟩
+    · obtain ⟨pre, r', post, st', hks, hinv, hok⟩ := ih (r :: done) _ (kernelStep_lastInv rows clipped ws q zl done st r inv) d hd
+      refine ⟨r :: pre, r', post, st', by rw [hks]; rfl, ?_, hok⟩
+      simpa [List.reverse_cons, List.append_assoc] using hinv
+
+/-- **A kernel-to-kernel edge joins consecutive kernels of one stream**: in any processing order `ks`,
+a `kk` edge runs from the end of a device activity `a` to the start of a later activity `b` of the same
+stream, and no activity of that stream is processed between the two. -/
+theorem C08_kk_edges_join_consecutive_kernels (rows clipped : List Row) (ws : Waits) (q : Int → Option Int)
+    (zl : Bool) (ks : List Row) :
+    ∀ d ∈ kernelRun rows clipped ws q zl ⟨[], []⟩ ks, d.ty = .kk →
+      ∃ pre a mid b post, ks = pre ++ a :: (mid ++ b :: post) ∧ isK a = true ∧ a.stream = b.stream ∧
+        d.src = ⟨a.idx, false⟩ ∧ d.dst = ⟨b.idx, true⟩ ∧ ∀ x ∈ mid, isK x = true → x.stream ≠ b.stream := by
+  intro d hd hty
+  obtain ⟨pre, b, post, st', hks, hinv, hok⟩ :=
+    kernelRun_types rows clipped ws q zl ks [] ⟨[], []⟩ ⟨by simp, by intro s n h; simp [lastOn] at h⟩ d hd
+  rcases hok with h | h | h | h | h | h
+  · rw [h.1] at hty; cases hty
+  · rw [h.1] at hty; cases hty
+  · obtain ⟨_, hlast, hdst⟩ := h
+    obtain ⟨a, ⟨l1, l2, hd', ha, has, hno⟩, hsrc⟩ := hinv.exact _ _ hlast
+    simp only [List.append_nil] at hd'
+    -- pre.reverse = l1 ++ a :: l2, so pre = l2.reverse ++ a :: l1.reverse
+    have hpre : pre = l2.reverse ++ a :: l1.reverse := by
+      have := congrArg List.reverse hd'
+      simpa [List.reverse_append, List.reverse_cons, List.append_assoc] using this
+    refine ⟨l2.reverse, a, l1.reverse, b, post, ?_, ha, has, hsrc, hdst, ?_⟩
+    · rw [hks, hpre]; simp [List.append_assoc]
+    · intro x hx; exact hno x (List.mem_reverse.mp hx)
+  · rw [h.1] at hty; cases hty
+  · rw [h.1] at hty; cases hty
+  · rw [h.1] at hty; cases hty
+
+/-- **A Stream / Context synchronisation edge starts at the end of the activity processed last on some
+stream before the synchronisation record**, and ends at the end of the host call the record is linked to. -/
+theorem C08_sync_edges_from_last_activity (rows clipped : List Row) (ws : Waits) (q : Int → Option Int)
+    (zl : Bool) (ks : List Row) :
+    ∀ d ∈ kernelRun rows clipped ws q zl ⟨[], []⟩ ks, d.ty = .sync →
+      ∃ pre r post, ks = pre ++ r :: post ∧
+        ((d.dst = ⟨r.link, false⟩ ∧ ∃ a s, LastOnStream pre.reverse s a ∧ d.src = ⟨a.idx, false⟩) ∨
+         (d.dst = ⟨r.link, false⟩ ∧ r.name = "Event Sync" ∧ d.src = ⟨linkOf rows (syncPrev rows ws r), false⟩) ∨
+         (d.dst = ⟨r.idx, true⟩ ∧ ∃ k, d.src = ⟨k, false⟩)) := by
+  intro d hd hty
+  obtain ⟨pre, r, post, st', hks, hinv, hok⟩ :=
+    kernelRun_types rows clipped ws q zl ks [] ⟨[], []⟩ ⟨by simp, by intro s n h; simp [lastOn] at h⟩ d hd
+  refine ⟨pre, r, post, hks, ?_⟩
+  rcases hok with h | h | h | h | h | h
+  · rw [h.1] at hty; cases hty
+  · rw [h.1] at hty; cases hty
+  · rw [h.1] at hty; cases hty
+  · obtain ⟨_, hdst, s, hs⟩ := h
+    obtain ⟨a, hla, hsrc⟩ := hinv.exact _ _ hs
+    simp only [List.append_nil] at hla
+    exact Or.inl ⟨hdst, a, s, hla, hsrc⟩
+  · exact Or.inr (Or.inl ⟨h.2.1, h.2.2.1, h.2.2.2⟩)
+  · obtain ⟨_, hdst, s, _, hsrc⟩ := h
+    exact Or.inr (Or.inr ⟨hdst, s, hsrc⟩)
+
+
+/-- **A launch-delay edge runs from a launch call to the kernel it launched**: from the start of the
+runtime call linked to a device activity `r` of the processing order to the start of `r`. -/
+theorem C08_launch_edges_join_call_and_kernel (rows clipped : List Row) (ws : Waits) (q : Int → Option Int)
+    (zl : Bool) (ks : List Row) :
+    ∀ d ∈ kernelRun rows clipped ws q zl ⟨[], []⟩ ks, d.ty = .launch →
+      ∃ r ∈ ks, d.src = ⟨r.link, true⟩ ∧ d.dst = ⟨r.idx, true⟩ := by
+  intro d hd hty
+  obtain ⟨pre, r, post, st', hks, _, hok⟩ :=
+    kernelRun_types rows clipped ws q zl ks [] ⟨[], []⟩ ⟨by simp, by intro s n h; simp [lastOn] at h⟩ d hd
+  have hr : r ∈ ks := by rw [hks]; simp
+  rcases hok with h | h | h | h | h | h
+  · rw [h.1] at hty; cases hty
+  · exact ⟨r, hr, h.2.1, h.2.2⟩
+  · rw [h.1] at hty; cases hty
+  · rw [h.1] at hty; cases hty
+  · rw [h.1] at hty; cases hty
+  · rw [h.1] at hty; cases hty
+
 /-! ### the whole graph: call-stack edges of every thread and the kernel loop together -/
 
 theorem threadDescs_forward (rows clipped : List Row) (t : Int × Int)
